@@ -153,6 +153,7 @@ func (ephH) Execute(c *Case, res *Result) {
 	believes := map[int]bool{}
 	since := map[int]time.Time{}
 	pausedUntil := map[int]time.Time{}
+	var lastReg time.Time // latest successful registration by anybody
 	seen := map[string]bool{}
 	viol := func(rule, sig, detail string) {
 		if seen[rule+sig] {
@@ -207,6 +208,7 @@ func (ephH) Execute(c *Case, res *Result) {
 				now := time.Now()
 				mu.Lock()
 				believes[who], since[who] = true, now
+				lastReg = now
 				res.Probes["registered"]++
 				res.Nontrivial = true
 				if o := be.owner(path); o != who {
@@ -268,7 +270,14 @@ func (ephH) Execute(c *Case, res *Result) {
 					case <-closed:
 					default:
 						if time.Since(lapseAt) > slack {
-							viol("lapse-not-notified", cfg.Backend, fmt.Sprintf("op#%d: the registration of registrant %d was revoked at %v but its expiry channel is still open %v later (heartbeat tick %v)", i, who, lapseAt.Sub(sim.Start), time.Since(lapseAt), tick))
+							// cause: was the key simply gone, or had somebody else registered meanwhile
+							mu.Lock()
+							cause := ":key-gone"
+							if lastReg.After(lapseAt) {
+								cause = ":key-taken-over"
+							}
+							mu.Unlock()
+							viol("lapse-not-notified", cfg.Backend+cause, fmt.Sprintf("op#%d: the registration of registrant %d was revoked at %v but its expiry channel is still open %v later (heartbeat tick %v)", i, who, lapseAt.Sub(sim.Start), time.Since(lapseAt), tick))
 						}
 					}
 				}
